@@ -103,7 +103,12 @@ func (g *cgen) node(d int, inLoop, inFunc bool) *cnode {
 		n := &cnode{kind: "switch", k: g.r.Intn(3)}
 		for i := g.r.Intn(3); i > 0; i-- {
 			n.cases = append(n.cases, g.r.Intn(3))
-			n.kids = append(n.kids, g.seq(d-1, inLoop, inFunc))
+			if g.r.Intn(4) == 0 {
+				// a case with an empty body: matching it runs nothing (in particular not the default)
+				n.kids = append(n.kids, &cnode{kind: "seq"})
+			} else {
+				n.kids = append(n.kids, g.seq(d-1, inLoop, inFunc))
+			}
 		}
 		if g.r.Intn(2) == 0 {
 			n.els = g.seq(d-1, inLoop, inFunc)
@@ -124,6 +129,9 @@ func (g *cgen) node(d int, inLoop, inFunc bool) *cnode {
 			w := -1
 			if inLoop {
 				w = g.r.Intn(4) - 1
+			}
+			if g.r.Intn(3) == 0 {
+				return &cnode{kind: "return", k: -1, when: w} // bare return: the invocation yields nil
 			}
 			return &cnode{kind: "return", k: g.r.Intn(3), when: w}
 		}
@@ -208,9 +216,15 @@ func (n *cnode) render(b *strings.Builder, cur string) {
 	case "continue":
 		guard("continue")
 	case "return":
-		guard(fmt.Sprintf("return %d", 100+n.k))
+		if n.k < 0 {
+			guard("return")
+		} else {
+			guard(fmt.Sprintf("return %d", 100+n.k))
+		}
 	}
 }
+
+const bareReturn = -424242
 
 type csig int
 
@@ -264,7 +278,9 @@ func (n *cnode) eval(trace *[]string, idx int) (csig, int) {
 		}
 	case "func":
 		s, v := n.kids[0].eval(trace, -1)
-		if s == sigReturn {
+		if s == sigReturn && v == bareReturn {
+			*trace = append(*trace, vals.Encode(nil))
+		} else if s == sigReturn {
 			*trace = append(*trace, vals.Encode(int64(v)))
 		} else {
 			*trace = append(*trace, "?") // value of the last statement: not modelled here, not compared
@@ -279,6 +295,9 @@ func (n *cnode) eval(trace *[]string, idx int) (csig, int) {
 		}
 	case "return":
 		if fires() {
+			if n.k < 0 {
+				return sigReturn, bareReturn
+			}
 			return sigReturn, 100 + n.k
 		}
 	}
